@@ -62,6 +62,11 @@ impl CompileError for ParseError {
                 loc,
                 Severity::Error,
             ),
+            ParseErrorReason::PackOffsetNotSupported => w.write_message(
+                &|f| write!(f, "packoffset is not supported"),
+                loc,
+                Severity::Error,
+            ),
             _ => w.write_message(
                 &|f| write!(f, "failed to parse source"),
                 loc,
@@ -83,6 +88,7 @@ pub enum ParseErrorReason {
     InvalidSlotIndex(String),
     InvalidSpaceIdentifier(String),
     UnexpectedAttribute(String),
+    PackOffsetNotSupported,
 }
 
 impl ParseErrorReason {
